@@ -244,8 +244,14 @@ fn build_inner(input: &FstInput) -> Result<Vec<u8>, String> {
     match input.front {
         Front::RawInsert => {
             let mut b = fe(fst::raw::Builder::new_type(vec![], input.ty), "new_type")?;
-            for (k, v) in ps {
-                fe(b.insert(k, *v), "insert")?;
+            for (i, (k, v)) in ps.iter().enumerate() {
+                // add(k) is documented as inserting k with a zero output: every other zero-valued
+                // key goes in through it, between insert calls
+                if *v == 0 && (i + k.len()) % 2 == 0 {
+                    fe(b.add(k), "add")?;
+                } else {
+                    fe(b.insert(k, *v), "insert")?;
+                }
             }
             // the finishing call alternates between the ways of getting at the result
             if ps.len() % 2 == 1 {
